@@ -52,7 +52,7 @@ func ruleP09Tables(p *Prog, r *Report) {
 	if r.anchorFn(rule, ts, "parser.Lines.ToString") {
 		ok := false
 		for _, ret := range returnsOf(ts) {
-			phis, ins := phiCycle(ret.Results[0])
+			phis, ins := phiCycle(retResult(ret, 0))
 			for _, in := range ins {
 				b, isB := in.(*ssa.BinOp)
 				if !isB || b.Op != token.ADD {
@@ -144,19 +144,21 @@ func ruleP09Complete(p *Prog, r *Report) {
 		leaves []ssa.Value
 	}
 	var lits []lineLit
-	eachInstr(f, func(in ssa.Instruction) {
-		st, ok := in.(*ssa.Store)
-		if !ok {
-			return
-		}
-		fa, ok := st.Addr.(*ssa.FieldAddr)
-		if !ok || typeNameOf(fa.X.Type()) != "Line" || fieldName(fa) != "Text" {
-			return
-		}
-		var leaves []ssa.Value
-		catLeaves(st.Val, &leaves, 0)
-		lits = append(lits, lineLit{st, leaves})
-	})
+	for _, g := range withAnons(f) {
+		eachInstr(g, func(in ssa.Instruction) {
+			st, ok := in.(*ssa.Store)
+			if !ok {
+				return
+			}
+			fa, ok := st.Addr.(*ssa.FieldAddr)
+			if !ok || typeNameOf(fa.X.Type()) != "Line" || fieldName(fa) != "Text" {
+				return
+			}
+			var leaves []ssa.Value
+			catLeaves(st.Val, &leaves, 0)
+			lits = append(lits, lineLit{st, leaves})
+		})
+	}
 	var sawHead, sawSummary, sawEntry, sawCont, sawFirst bool
 	for _, l := range lits {
 		only, _ := onlyLoopGuards(l.st.Block())
@@ -304,7 +306,7 @@ func ruleP09Complete(p *Prog, r *Report) {
 		okA := h != nil
 		if okA {
 			for _, ret := range returnsOf(h) {
-				n, a := serCall(ret.Results[0])
+				n, a := serCall(retResult(ret, 0))
 				if n != kind || len(a) != 1 || strip(a[0]) != ssa.Value(h.Params[len(h.Params)-1]) {
 					okA = false
 				}
@@ -322,7 +324,7 @@ func ruleP09ToString(p *Prog, r *Report) {
 			continue
 		}
 		for _, ret := range returnsOf(f) {
-			c, _ := callOf(ret.Results[0])
+			c, _ := callOf(retResult(ret, 0))
 			ok := c != nil && staticCallee(c) != nil && fnBase(staticCallee(c)) == "Format"
 			if ok {
 				n, recv, _, _ := methodCall(c.Common().Args[1])
@@ -346,7 +348,7 @@ func ruleP09ToString(p *Prog, r *Report) {
 					sign = &b
 				}
 			}
-			c, _ := callOf(ret.Results[0])
+			c, _ := callOf(retResult(ret, 0))
 			got := ""
 			if c != nil {
 				if g := staticCallee(c); g != nil && g.String() == "strconv.Itoa" {
@@ -378,7 +380,7 @@ func ruleP09ToString(p *Prog, r *Report) {
 			continue
 		}
 		for _, ret := range returnsOf(f) {
-			c, _ := callOf(ret.Results[0])
+			c, _ := callOf(retResult(ret, 0))
 			ok := c != nil && staticCallee(c) != nil && fnBase(staticCallee(c)) == "Format"
 			if ok {
 				dc, _ := callOf(c.Common().Args[1])
